@@ -259,8 +259,11 @@ def sweep_records(seed, tier):
         for kind, stmts, opts in kinds:
             k += 1
             rng = random.Random(common.derive_seed("C19-sweep", seed, k))
-            pick = [stmts[rng.randrange(len(stmts))] for _ in range(3)]
-            scripts = [[{"op": "generate", "sql": q, "read": rd, "write": d, "opts": dict(opts)} for rd, q in (pick[rng.randrange(3)] for _ in range(3))] for _ in range(3)]
+            # every statement of the family, each thread starting somewhere else in the list
+            scripts = []
+            for ti in range(3):
+                off_ = rng.randrange(len(stmts))
+                scripts.append([{"op": "generate", "sql": q, "read": rd, "write": d, "opts": dict(opts)} for rd, q in stmts[off_:] + stmts[:off_]])
             out.append({"engine": "threadsim", "config": {"warm": True, "hashseed": 0, "strategy": "random", "sched_seed": rng.getrandbits(48), "mean_gap": rng.choice([10, 100, 1000]),
                                                            "pct_depth": 1, "p_cold": 0.0, "gc_rate": 0.0, "sweep": "write-focus:" + kind, "importlib_steps": False},
                         "scripts": scripts})
@@ -269,7 +272,7 @@ def sweep_records(seed, tier):
     from sim.threadsim.child import MICRO_KINDS
 
     for what in MICRO_KINDS:
-        for rep in range(4 if tier == "quick" else 12):
+        for rep in range(8 if tier == "quick" else 24):
             k += 1
             rng = random.Random(common.derive_seed("C19-sweep", seed, k))
             md = rng.choice([None, "duckdb", "snowflake", "bigquery", "postgres", "mysql", "spark", "tsql", "oracle", "clickhouse", "presto", "hive"])
